@@ -34,6 +34,10 @@ func profile(name string, cfgs []vtx.Config) *vtx.Profile {
 				}
 				if m.Allocs[c] == nil {
 					e = append(e, prof.E("alloc", c, 0))
+					if c == "c2" && !m.Cfg.Stream {
+						// EVEN-PORT: the manager probes relay sockets until it draws an even port (odd draws after c1's allocation)
+						e = append(e, vtx.Event{K: "alloc", C: c, L: -1, Even: true})
+					}
 					if c == "c1" {
 						e = append(e, prof.E("perm", c, 0, "A")) // request without allocation
 					}
